@@ -245,10 +245,10 @@ def main(argv=None):
     if audit_units and not a.unit:
         import random as _random
         rr = _random.Random(seed + 99)
-        cap = 48 if tier == "quick" else len(audit_units)
+        cap = 160 if tier == "quick" else len(audit_units)
         if len(audit_units) > cap:
             audit_units = rr.sample(audit_units, cap)
-        n_audit = 6 if tier == "quick" else 60
+        n_audit = 20 if tier == "quick" else 100
         for (mod, un), (ne, fail) in zip(audit_units, runner.run_adjudications(audit_units, n_audit, seed + 1, a.procs or None)):
             audit_evals += ne
             if fail is not None and "error" in fail:
